@@ -9,6 +9,7 @@ import (
 	"os"
 	"os/exec"
 	"path/filepath"
+	"strings"
 	"time"
 
 	"github.com/sharedcode/sop"
@@ -186,9 +187,21 @@ func runCache(cfg Config) {
 		if clustered {
 			nw = 2 + rnd.Intn(2)
 		}
+		if len(cfg.Script) > 0 { // scripted history (replay of a CacheCoherence behaviour): as many processes as it names
+			nw = 1
+			for _, st := range cfg.Script {
+				var j int
+				if i := strings.Index(st, "@w"); i >= 0 {
+					fmt.Sscanf(st[i+2:], "%d", &j)
+					if j+1 > nw {
+						nw = j + 1
+					}
+				}
+			}
+		}
 		var ws []*worker
 		bad := false
-		small := rnd.Intn(3) == 0 // the whole history runs with every process's L1 shrunk to 4 entries
+		small := rnd.Intn(3) == 0 && len(cfg.Script) == 0 // the whole history runs with every process's L1 shrunk to 4 entries
 		for j := 0; j < nw; j++ {
 			w, err := startWorker(CacheCfg{Folder: folder, Redis: addr, Name: fmt.Sprintf("w%d", j), Stores: stores, SmallL1: small}, dir)
 			if err != nil {
@@ -223,6 +236,32 @@ func runCache(cfg Config) {
 			}
 			vn := 0
 			n := 4 + rnd.Intn(cfg.Gen.MaxTxns+4)
+			if len(cfg.Script) > 0 {
+				n = 0
+				for st, step := range cfg.Script {
+					if dead {
+						break
+					}
+					j := 0
+					if i := strings.Index(step, "@w"); i >= 0 {
+						fmt.Sscanf(step[i+2:], "%d", &j)
+					}
+					switch {
+					case strings.HasPrefix(step, "txn@"): // read-modify-write of key 1
+						vn++
+						spec := TxnSpec{Mode: "w", Open: []int{0}, End: "commit", Ops: []OpSpec{{Op: "Get", Store: 0, K: 1},
+							{Op: "Update", Store: 0, K: 1, V: fmt.Sprintf("s%d.%d", i, vn)}}}
+						add(ws[j].do(workerCmd{Cmd: "txn", Label: fmt.Sprintf("t%d", st+1), Spec: &spec}))
+					case strings.HasPrefix(step, "observe@"):
+						add(ws[j].do(workerCmd{Cmd: "observe"}))
+					case step == "flushall" && srv != nil:
+						srv.FlushAll()
+					case step == "clearl2":
+						add(ws[j].do(workerCmd{Cmd: "clearl2"}))
+					}
+					steps = append(steps, step)
+				}
+			}
 			for st := 0; st < n && !dead; st++ {
 				j := rnd.Intn(len(ws))
 				switch rnd.Intn(6) {
